@@ -55,6 +55,11 @@ ASSUMPTIONS = [
     "locks accept a manual request_ball event that can never be served (nothing feeds a lock); such a request stays "
     "queued at the lock and is excused by the delivery/request_served clauses; it sits in front of the plunger/trough in "
     "handler registration order, so every balldevice_balls_available notification has to get past it",
+    "the script may decide that the next kick of a device goes astray (op 'fault'); three-device chains get a burst "
+    "'ball for the staging device lost between trough and launcher, drains back, then a further request'",
+    "a stuck waiting_for_ball after ball_missing handling carries the known-finding signature only if a mechanical-eject "
+    "device exists or a replacement request is parked at a device nothing feeds; otherwise "
+    "'..._after_lost_ball_path_restore'",
     "zero_time_livelock: 100000 loop iterations without the virtual clock advancing (deterministic, not wall clock)",
     "same physical envelope as C04 (no diverters, one ball per pulse, no jam switches, entrance devices without "
     "undetectable faults, bounce on overflow)",
